@@ -41,7 +41,7 @@ REPO = os.environ.get("VERIF_REPO", "/repo")
 VERIF = os.path.dirname(os.path.dirname(os.path.abspath(__file__)))
 CACHE = os.environ.get("VERIF_CACHE", os.path.join(VERIF, ".cache"))
 STUBS = os.path.join(VERIF, "stubs")
-FRONTEND_VERSION = "cxx-17"
+FRONTEND_VERSION = "cxx-19"
 
 CLANG = "clang++"
 
@@ -613,6 +613,9 @@ class Lower:
         if k in TRANSPARENT:
             if k in ("CXXFunctionalCastExpr", "CStyleCastExpr") and not inner:
                 return ("ctor", clean_type(_qt(n)), (), line)
+            if k == "CStyleCastExpr" and inner and clean_type(_qt(n)) == "I":
+                # ForthMachineOf<T, I>: I is the 32-bit bytecode type; a cast to it is a (possibly truncating) conversion worth keeping
+                return ("cast", "cstyle", "I", self.expr(inner[0]))
             if k == "ImplicitCastExpr" and n.get("castKind") == "IntegralCast" and inner:
                 wt, wf = int_width(n.get("type")), int_width(inner[0].get("type"))
                 if wt and wf and wt < wf and inner[0].get("kind") not in ("IntegerLiteral", "CharacterLiteral", "CXXBoolLiteralExpr", "UnaryOperator") and not _is_const_expr(inner[0]):
@@ -663,6 +666,9 @@ class Lower:
                 return ("comma", a, b)
             if op == "/" and is_floating(n.get("type")):
                 op = "f/"   # floating-point division: no trap on a zero divisor (normalised back to '/' by kspec.cexpr)
+            if op == "<<" and a[0] == "const" and (int_width(inner[0].get("type")) or 0) >= 64:
+                # (uint64_t)1 << n  /  1LL << n : the literal already has 64 bits (C-style casts are otherwise transparent)
+                a = ("cast", "cstyle", clean_type(_qt(inner[0])), a)
             return ("bin", op, a, b)
         if k == "CompoundAssignOperator":
             op = n["opcode"][:-1]
